@@ -397,7 +397,7 @@ class _ScopeContext:
 
         else:
             if a := ast.ifs:
-                stack.extend(a)
+                stack.extend(a[::-1])  # popped from the end, first `if` first
 
             if (a := ast.iter) is not self.scope_first_iter:
                 stack.append(a)
